@@ -339,6 +339,9 @@ func (e *SyncDiagnosticList) Clear() {
 }
 
 func (e *SyncDiagnosticList) IsFailure() bool {
+	e.Mutex.Lock()
+	defer e.Mutex.Unlock()
+
 	return e.DiagnosticList.IsFailure()
 }
 
